@@ -12,7 +12,7 @@
    3. Corollaries: the Spec/EPrintSpec.v statement (same preprocessing tokens; no `#` at the start
       of a line unless the list begins with one - and that exception is real: [leading_hash_refuted]),
       and idempotence of print-after-read. *)
-From Chibicc Require Import Base.Mach Model.Lexer Gen.PunctTable Proofs.LexerProofs Model.EPrint Spec.EPrintSpec.
+From Chibicc Require Import Base.Mach Model.Lexer Gen.PunctTable Proofs.LexerProofs Model.Phases Model.EPrint Spec.EPrintSpec.
 Local Open Scope N_scope.
 
 (* ---------- unfolding equations (cbn on the fuelled scanners unfolds too much) ---------- *)
@@ -300,25 +300,26 @@ Proof.
 Qed.
 
 (* ---------- the printed text: glued spellings, then a separator ---------- *)
-Lemma glued_no_sep t : glued t = true -> sep_before false t = [].
+Lemma glued_no_sep pb t : glued t = true -> sep_before false pb t = [].
 Proof.
   unfold glued, sep_before, starts_line, wants_space.
   destruct (e_adj t), (e_space t), (e_bol t), (is_hash (e_text t)); cbn; intros H; try discriminate; reflexivity.
 Qed.
-Lemma not_glued_sep t : glued t = false -> sep_before false t = [10] \/ sep_before false t = [32].
+Lemma not_glued_sep pb t : glued t = false -> exists c more, is_sep c = true /\ sep_before false pb t = c :: more.
 Proof.
-  unfold glued, sep_before, starts_line, wants_space.
-  destruct (e_adj t), (e_space t), (e_bol t), (is_hash (e_text t)); cbn; intros H; try discriminate; auto.
+  unfold glued, sep_before, starts_line, wants_space, newline.
+  destruct (e_adj t), (e_space t), (e_bol t), (is_hash (e_text t)), pb; cbn; intros H; try discriminate;
+    eexists _, _; (split; [|reflexivity]); reflexivity.
 Qed.
 
-Lemma eprint_from_split : forall r, exists c more, is_sep c = true /\ eprint_from false r = glue_text r ++ c :: more.
+Lemma eprint_from_split : forall r pb, exists c more, is_sep c = true /\ eprint_from false pb r = glue_text r ++ c :: more.
 Proof.
-  induction r as [|t r IH]; cbn [eprint_from glue_text].
-  - exists 10, []. split; reflexivity.
+  induction r as [|t r IH]; intros pb; cbn [eprint_from glue_text].
+  - unfold newline. destruct pb; eexists _, _; (split; [|reflexivity]); reflexivity.
   - destruct (glued t) eqn:G.
-    + destruct IH as [c [more [Hc E]]]. exists c, more. split; [exact Hc|].
-      rewrite (glued_no_sep t G), E. cbn [app]. rewrite app_assoc. reflexivity.
-    + destruct (not_glued_sep t G) as [E|E]; rewrite E; eexists _, _; (split; [|reflexivity]); reflexivity.
+    + destruct (IH (is_bslash (e_text t))) as [c [more [Hc E]]]. exists c, more. split; [exact Hc|].
+      rewrite (glued_no_sep pb t G), E. cbn [app]. rewrite app_assoc. reflexivity.
+    + destruct (not_glued_sep pb t G) as [c [more [Hc E]]]. rewrite E. exists c. eexists. split; [exact Hc|]. reflexivity.
 Qed.
 
 (* ---------- steps of the tokenizer ---------- *)
@@ -353,41 +354,63 @@ Proof.
   unfold mk. rewrite firstn_app_exact. reflexivity.
 Qed.
 
-Lemma eprint_from_length first ts : (1 <= length (eprint_from first ts))%nat.
-Proof. revert first; induction ts as [|t r IH]; intros first; cbn [eprint_from]; rewrite ?app_length; [cbn [length]; lia|]. specialize (IH false). lia. Qed.
+Lemma lex_newline pb f r bol sp : lex tbl (length (newline pb) + f) (newline pb ++ r) bol sp = lex tbl f r true false.
+Proof. destruct pb; reflexivity. Qed.
+Lemma lex_newline_end pb f bol sp : lex tbl (length (newline pb) + f) (newline pb) bol sp = LexOk [].
+Proof. destruct pb, f; reflexivity. Qed.
+
+Lemma eprint_from_length first pb ts : (1 <= length (eprint_from first pb ts))%nat.
+Proof.
+  revert first pb; induction ts as [|t r IH]; intros first pb; cbn [eprint_from]; rewrite ?app_length.
+  - destruct pb; cbn; lia.
+  - specialize (IH false (is_bslash (e_text t))). lia.
+Qed.
+
+Lemma printable_head t r pb : printable (t :: r) -> lexed_in (e_kind t) (e_text t) (eprint_from false pb r).
+Proof.
+  intros [[src Hsrc] _]. destruct (eprint_from_split r pb) as [c [more [Hc E]]].
+  rewrite E. exact (lexed_in_cut _ _ _ src c more Hc Hsrc).
+Qed.
 
 (* ---------- the round trip ---------- *)
-Lemma relex_from_ok : forall ts first f, printable ts -> (length (eprint_from first ts) < f)%nat ->
-  lex tbl f (eprint_from first ts) first false = LexOk (relex_from first ts).
+Lemma relex_from_ok : forall ts first pb sp0 f, printable ts -> (length (eprint_from first pb ts) < f)%nat ->
+  lex tbl f (eprint_from first pb ts) first sp0 = LexOk (relex_from first sp0 ts).
 Proof.
-  induction ts as [|t r IH]; intros first f Hp Hf.
-  - cbn [eprint_from relex_from length] in *. destruct f as [|[|f]]; try lia. rewrite lex_nl. destruct f; reflexivity.
-  - destruct Hp as [[src Hsrc] Hr]. cbn [eprint_from relex_from] in *.
-    destruct (eprint_from_split r) as [c [more [Hc E]]].
-    assert (L : lexed_in (e_kind t) (e_text t) (eprint_from false r)).
-    { rewrite E. exact (lexed_in_cut _ _ _ src c more Hc Hsrc). }
+  induction ts as [|t r IH]; intros first pb sp0 f Hp Hf.
+  - cbn [eprint_from relex_from] in *.
+    assert (Hx : exists f', f = (length (newline pb) + f')%nat) by (exists (f - length (newline pb))%nat; lia).
+    destruct Hx as [f' ->]. apply lex_newline_end.
+  - pose proof (printable_head t r (is_bslash (e_text t)) Hp) as L. destruct Hp as [_ Hr].
+    cbn [eprint_from relex_from] in *.
     pose proof (first_token_pos tbl _ _ _ (proj1 L)) as Hpos.
-    pose proof (eprint_from_length false r) as Hrest.
+    pose proof (eprint_from_length false (is_bslash (e_text t)) r) as Hrest.
     unfold sep_before, relex_tok in *. destruct (starts_line first t) eqn:SL.
-    + (* a new-line, then the token *)
+    + (* a new-line (behind a space if the previous token is a backslash), then the token *)
       assert (Hfirst : first = false) by (unfold starts_line in SL; destruct first; [discriminate|reflexivity]).
-      cbn [app] in *. cbn [length] in Hf. rewrite app_length in Hf.
-      destruct f as [|[|f]]; try lia. rewrite lex_nl.
-      rewrite (lex_token_step f _ _ _ true false (relex_from false r) L); [reflexivity|].
-      apply IH; [exact Hr|lia].
+      rewrite !app_length in Hf.
+      assert (Hx : exists f', f = (length (newline pb) + S f')%nat /\
+                              (length (eprint_from false (is_bslash (e_text t)) r) < f')%nat).
+      { exists (f - length (newline pb) - 1)%nat. lia. }
+      destruct Hx as [f' [-> Hf']]. rewrite lex_newline.
+      rewrite (lex_token_step f' _ _ _ true false (relex_from false false r) L); [reflexivity|].
+      apply IH; [exact Hr|exact Hf'].
     + destruct (wants_space first t) eqn:WS.
       * cbn [app] in *. cbn [length] in Hf. rewrite app_length in Hf.
         destruct f as [|[|f]]; try lia. rewrite lex_sp.
-        rewrite (lex_token_step f _ _ _ first true (relex_from false r) L); [reflexivity|].
+        rewrite (lex_token_step f _ _ _ first true (relex_from false false r) L); [rewrite orb_true_r; reflexivity|].
         apply IH; [exact Hr|lia].
       * cbn [app] in *. rewrite app_length in Hf.
         destruct f as [|f]; try lia.
-        rewrite (lex_token_step f _ _ _ first false (relex_from false r) L); [reflexivity|].
+        rewrite (lex_token_step f _ _ _ first sp0 (relex_from false false r) L); [rewrite orb_false_r; reflexivity|].
         apply IH; [exact Hr|lia].
 Qed.
 
 Theorem eprint_relex : forall ts, printable ts -> tokenize tbl (eprint ts) = LexOk (relex ts).
-Proof. intros ts Hp. unfold tokenize, eprint, relex. apply relex_from_ok; [exact Hp|lia]. Qed.
+Proof.
+  intros ts Hp. unfold tokenize, eprint, relex. destruct (bom_guard ts).
+  - cbn [app length]. rewrite lex_sp. apply relex_from_ok; [exact Hp|lia].
+  - cbn [app]. apply relex_from_ok; [exact Hp|lia].
+Qed.
 End Relex.
 
 (* ---------- every token list that ONE tokenizer run produces is printable ---------- *)
@@ -542,16 +565,16 @@ End Lexed.
 (* ---------- what the flags of the re-read tokens say ---------- *)
 Definition given (ts : list etok) : list pptoken := map (fun t => (e_kind t, e_text t)) ts.
 
-Lemma relex_from_given : forall ts first, map pptoken_of (relex_from first ts) = given ts.
+Lemma relex_from_given : forall ts first sp0, map pptoken_of (relex_from first sp0 ts) = given ts.
 Proof.
-  induction ts as [|t r IH]; intros first; cbn [relex_from map given]; [reflexivity|].
+  induction ts as [|t r IH]; intros first sp0; cbn [relex_from map given]; [reflexivity|].
   f_equal; [|apply IH]. unfold relex_tok, pptoken_of. destruct (starts_line first t); reflexivity.
 Qed.
 
-Lemma relex_from_false_no_directive : forall ts, no_directive (relex_from false ts) = true.
+Lemma relex_from_false_no_directive : forall ts sp0, no_directive (relex_from false sp0 ts) = true.
 Proof.
-  induction ts as [|t r IH]; cbn [relex_from no_directive forallb]; [reflexivity|].
-  fold (no_directive (relex_from false r)). rewrite IH, andb_true_r.
+  induction ts as [|t r IH]; intros sp0; cbn [relex_from no_directive forallb]; [reflexivity|].
+  fold (no_directive (relex_from false false r)). rewrite IH, andb_true_r.
   unfold relex_tok, begins_directive. destruct (starts_line false t) eqn:SL; cbn [t_bol t_text andb negb]; [|reflexivity].
   unfold starts_line in SL. apply andb_true_iff in SL as [_ SL]. unfold is_hash in SL. exact SL.
 Qed.
@@ -560,47 +583,156 @@ Qed.
 Theorem relex_no_directive ts : no_directive (relex ts) = negb (leading_hash ts).
 Proof.
   unfold relex. destruct ts as [|t r]; [reflexivity|]. cbn [relex_from no_directive forallb leading_hash].
-  fold (no_directive (relex_from false r)). rewrite relex_from_false_no_directive, andb_true_r.
+  fold (no_directive (relex_from false false r)). rewrite relex_from_false_no_directive, andb_true_r.
   unfold relex_tok, starts_line, begins_directive. cbn [negb andb t_bol t_text]. reflexivity.
 Qed.
 
 (* ---------- printing what was read back prints the same text ---------- *)
-Lemma relex_tok_text first t : t_text (relex_tok first t) = e_text t.
+Lemma relex_tok_text first sp0 t : t_text (relex_tok first sp0 t) = e_text t.
 Proof. unfold relex_tok. destruct (starts_line first t); reflexivity. Qed.
-Lemma relex_tok_kind first t : t_kind (relex_tok first t) = e_kind t.
+Lemma relex_tok_kind first sp0 t : t_kind (relex_tok first sp0 t) = e_kind t.
 Proof. unfold relex_tok. destruct (starts_line first t); reflexivity. Qed.
-Lemma eprint_of_relex_from : forall ts first,
-  eprint_from first (of_lexed (relex_from first ts)) = eprint_from first ts.
+
+Lemma eprint_of_relex_from : forall ts pb,
+  eprint_from false pb (of_lexed (relex_from false false ts)) = eprint_from false pb ts.
 Proof.
-  induction ts as [|t r IH]; intros first; cbn [relex_from of_lexed map eprint_from]; [reflexivity|].
-  fold (of_lexed (relex_from false r)). rewrite IH. f_equal; [|cbn [e_text]; rewrite relex_tok_text; reflexivity].
-  unfold relex_tok, sep_before. destruct (starts_line first t) eqn:SL.
+  induction ts as [|t r IH]; intros pb; cbn [relex_from of_lexed map eprint_from]; [reflexivity|].
+  fold (of_lexed (relex_from false false r)). cbn [e_text]. rewrite relex_tok_text, IH. f_equal.
+  unfold relex_tok, sep_before. destruct (starts_line false t) eqn:SL.
   - unfold starts_line in *. cbn [e_bol e_text t_bol t_text t_space t_kind].
-    apply andb_true_iff in SL as [SL H]. apply andb_true_iff in SL as [F _]. rewrite F, H. reflexivity.
-  - unfold starts_line, wants_space in *. cbn [e_bol e_text e_space e_adj t_bol t_text t_space t_kind].
-    destruct first; cbn [negb andb orb] in *.
-    + destruct (e_space t); reflexivity.
-    + destruct (e_space t), (e_adj t); reflexivity.
+    apply andb_true_iff in SL as [_ H]. rewrite H. reflexivity.
+  - unfold starts_line, wants_space in *. cbn [e_bol e_text e_space e_adj t_bol t_text t_space t_kind negb andb orb] in *.
+    destruct (e_space t), (e_adj t); reflexivity.
 Qed.
 
 Theorem eprint_of_relex ts : eprint (of_lexed (relex ts)) = eprint ts.
-Proof. apply eprint_of_relex_from. Qed.
-
-(* and reading it back once more gives the same tokens, flags included: a fixpoint after one round *)
-Lemma relex_of_relex_from : forall ts first,
-  relex_from first (of_lexed (relex_from first ts)) = relex_from first ts.
 Proof.
-  induction ts as [|t r IH]; intros first; cbn [relex_from of_lexed map]; [reflexivity|].
-  fold (of_lexed (relex_from false r)). rewrite IH. f_equal.
-  unfold relex_tok at 1 3. destruct (starts_line first t) eqn:SL.
-  - unfold relex_tok. rewrite SL. unfold starts_line in *. cbn [e_bol e_text e_kind t_bol t_text t_space t_kind].
-    apply andb_true_iff in SL as [SL H]. apply andb_true_iff in SL as [F _]. rewrite F, H. reflexivity.
-  - unfold relex_tok. rewrite SL. unfold starts_line, wants_space in *.
-    cbn [e_bol e_text e_space e_adj e_kind t_bol t_text t_space t_kind].
-    destruct first; cbn [negb andb orb] in *.
-    + destruct (e_space t); reflexivity.
-    + destruct (e_space t), (e_adj t); reflexivity.
+  destruct ts as [|t r]; [reflexivity|].
+  unfold eprint, relex. cbn [relex_from of_lexed map eprint_from bom_guard].
+  fold (of_lexed (relex_from false false r)). cbn [e_text e_space]. rewrite relex_tok_text, eprint_of_relex_from.
+  unfold relex_tok, sep_before, starts_line, wants_space.
+  cbn [negb andb orb e_bol e_text e_space e_adj t_bol t_text t_space t_kind].
+  destruct (e_space t), (bom_start (e_text t)); reflexivity.
 Qed.
+
+(* ---------- the printed text passes phases 1-2 of a reader unchanged ---------- *)
+Definition starts_nl (p : list N) : bool := match p with d :: _ => d =? 10 | [] => false end.
+
+Lemma has_bs_nl_spec : forall p, has_bs_nl p = has_splice p.
+Proof. induction p as [|c p IH]; cbn [has_bs_nl has_splice]; [reflexivity|]. rewrite IH. reflexivity. Qed.
+
+Lemma has_splice_cons2 c d r : has_splice (c :: d :: r) = ((c =? 92) && (d =? 10)) || has_splice (d :: r).
+Proof. reflexivity. Qed.
+Lemma ends_cons2 c d r : ends_in_bslash (c :: d :: r) = ends_in_bslash (d :: r).
+Proof. reflexivity. Qed.
+
+Lemma has_splice_app : forall a b,
+  has_splice (a ++ b) = has_splice a || (ends_in_bslash a && starts_nl b) || has_splice b.
+Proof.
+  induction a as [|c a IH]; intros b; [reflexivity|]. destruct a as [|d a].
+  - cbn [app has_splice ends_in_bslash]. change (match b with d :: _ => d =? 10 | [] => false end) with (starts_nl b).
+    destruct (c =? 92), (starts_nl b), (has_splice b); reflexivity.
+  - change ((c :: d :: a) ++ b) with (c :: d :: (a ++ b)). rewrite !has_splice_cons2, ends_cons2.
+    change (d :: a ++ b) with ((d :: a) ++ b). rewrite IH, !orb_assoc. reflexivity.
+Qed.
+
+Lemma sep_before_clean first pb t :
+  has_splice (sep_before first pb t) = false /\ ends_in_bslash (sep_before first pb t) = false /\
+  has_cr (sep_before first pb t) = false.
+Proof.
+  unfold sep_before, newline. destruct (starts_line first t), (wants_space first t), pb; repeat split; reflexivity.
+Qed.
+
+Lemma clean_text_facts a : clean_text a = true ->
+  has_cr a = false /\ has_splice a = false /\ (ends_in_bslash a = true -> is_bslash a = true).
+Proof.
+  unfold clean_text, has_cr. rewrite !andb_true_iff, !negb_true_iff, has_bs_nl_spec. intros [[H1 H2] H3].
+  split; [exact H1|]. split; [exact H2|]. intros E. rewrite E in H3. exact H3.
+Qed.
+
+Section Survive.
+Variable tbl : list (list N).
+Hypothesis tbl_nosep : forallb nosep tbl = true.
+Hypothesis tbl_nospace : forallb no_space_head tbl = true.
+
+Lemma lexed_in_first_byte k a rest : lexed_in tbl k a rest ->
+  exists c a', a = c :: a' /\ (c =? 10) = false /\ is_space c = false.
+Proof.
+  intros [H1 _]. pose proof (first_token_pos tbl _ _ _ H1) as Hpos.
+  destruct a as [|c a]; [cbn [length] in Hpos; lia|]. exists c, a. split; [reflexivity|].
+  assert (Hs : is_space c = false).
+  { destruct (is_space c) eqn:E; [|reflexivity]. cbn [app] in H1. rewrite (first_token_space tbl tbl_nospace c _ E) in H1. discriminate. }
+  split; [|exact Hs]. destruct (c =? 10) eqn:E; [|reflexivity]. apply N.eqb_eq in E. subst c. discriminate.
+Qed.
+
+(* behind a `\` token the printer never continues with a new-line byte *)
+Lemma starts_nl_after_bslash r : printable tbl r -> starts_nl (eprint_from false true r) = false.
+Proof.
+  destruct r as [|t r]; intros Hp; [reflexivity|]. cbn [eprint_from]. unfold sep_before, newline.
+  destruct (starts_line false t); [reflexivity|]. destruct (wants_space false t); [reflexivity|]. cbn [app].
+  destruct (lexed_in_first_byte _ _ _ (printable_head tbl tbl_nosep t r (is_bslash (e_text t)) Hp)) as [c [a' [E [Hn _]]]].
+  rewrite E. cbn [app starts_nl]. exact Hn.
+Qed.
+
+Lemma no_splice_from : forall ts first pb, printable tbl ts -> clean_tokens ts = true ->
+  has_splice (eprint_from first pb ts) = false.
+Proof.
+  induction ts as [|t r IH]; intros first pb Hp Hc; cbn [eprint_from].
+  - unfold newline. destruct pb; reflexivity.
+  - cbn [clean_tokens forallb] in Hc. apply andb_true_iff in Hc as [Ht Hc]. fold (clean_tokens r) in Hc.
+    destruct (clean_text_facts _ Ht) as [_ [Hs He]]. destruct (sep_before_clean first pb t) as [S1 [S2 _]].
+    rewrite has_splice_app, S1, S2. cbn [andb orb].
+    rewrite has_splice_app, Hs, (IH false (is_bslash (e_text t)) (proj2 Hp) Hc). cbn [orb]. rewrite orb_false_r.
+    destruct (ends_in_bslash (e_text t)) eqn:E; [|reflexivity]. rewrite (He eq_refl). cbn [andb].
+    exact (starts_nl_after_bslash r (proj2 Hp)).
+Qed.
+
+Lemma no_cr_from : forall ts first pb, clean_tokens ts = true -> has_cr (eprint_from first pb ts) = false.
+Proof.
+  induction ts as [|t r IH]; intros first pb Hc; cbn [eprint_from].
+  - unfold newline. destruct pb; reflexivity.
+  - cbn [clean_tokens forallb] in Hc. apply andb_true_iff in Hc as [Ht Hc]. fold (clean_tokens r) in Hc.
+    destruct (clean_text_facts _ Ht) as [Hr _]. destruct (sep_before_clean first pb t) as [_ [_ S3]].
+    unfold has_cr in *. rewrite !existsb_app, S3, Hr, (IH false _ Hc). reflexivity.
+Qed.
+
+Lemma bom_head_neq c x : (c =? 239) = false -> begins_with_bom (c :: x) = false.
+Proof. intros H. destruct x as [|b [|d x]]; cbn [begins_with_bom]; try reflexivity. rewrite H. reflexivity. Qed.
+
+Lemma first_token_239 r : first_token tbl (239 :: r) = Some (LIdent, S (scan_ident2 r)).
+Proof. reflexivity. Qed.
+
+(* a token that does not begin with EF BB BF does not make the text begin with it either *)
+Lemma no_bom_head k a rest : lexed_in tbl k a rest -> bom_start a = false -> begins_with_bom (a ++ rest) = false.
+Proof.
+  intros [H1 _] Hb. destruct (begins_with_bom (a ++ rest)) eqn:B; [exfalso|reflexivity].
+  pose proof (first_token_pos tbl _ _ _ H1) as Hpos.
+  destruct a as [|c1 [|c2 [|c3 a]]]; [cbn [length] in Hpos; lia| | |].
+  - cbn [app] in *. destruct rest as [|r1 [|r2 rest]]; try discriminate. cbn [begins_with_bom] in B.
+    apply andb_true_iff in B as [B B3]. apply andb_true_iff in B as [B1 B2].
+    apply N.eqb_eq in B1, B2, B3. subst. rewrite first_token_239 in H1. discriminate.
+  - cbn [app] in *. destruct rest as [|r1 rest]; try discriminate. cbn [begins_with_bom] in B.
+    apply andb_true_iff in B as [B B3]. apply andb_true_iff in B as [B1 B2].
+    apply N.eqb_eq in B1, B2, B3. subst. rewrite first_token_239 in H1. discriminate.
+  - cbn [app begins_with_bom bom_start] in *. congruence.
+Qed.
+
+Theorem eprint_survives : forall ts, printable tbl ts -> clean_tokens ts = true ->
+  survives_phases_1_2 (eprint ts) = true.
+Proof.
+  intros ts Hp Hc. unfold survives_phases_1_2, eprint.
+  assert (H2 : has_splice ((if bom_guard ts then [32] else []) ++ eprint_from true false ts) = false).
+  { pose proof (no_splice_from ts true false Hp Hc) as H. destruct (bom_guard ts); [|exact H]. cbn [app has_splice]. exact H. }
+  assert (H3 : has_cr ((if bom_guard ts then [32] else []) ++ eprint_from true false ts) = false).
+  { pose proof (no_cr_from ts true false Hc) as H. destruct (bom_guard ts); [|exact H]. unfold has_cr in *. cbn [app existsb]. exact H. }
+  assert (H1 : begins_with_bom ((if bom_guard ts then [32] else []) ++ eprint_from true false ts) = false).
+  { destruct ts as [|t r]; [reflexivity|]. cbn [bom_guard eprint_from]. unfold sep_before, starts_line, wants_space.
+    cbn [negb andb orb]. destruct (e_space t); cbn [negb andb orb app]; [apply bom_head_neq; reflexivity|].
+    destruct (bom_start (e_text t)) eqn:B; cbn [app]; [apply bom_head_neq; reflexivity|].
+    exact (no_bom_head _ _ _ (printable_head tbl tbl_nosep t r (is_bslash (e_text t)) Hp) B). }
+  rewrite H1, H2, H3. reflexivity.
+Qed.
+End Survive.
 
 (* ---------- instance: the punctuator table regenerated from tokenize.c ---------- *)
 Lemma punct_table_nosep' : forallb nosep punct_table = true.
@@ -612,13 +744,13 @@ Definition printable_src := printable punct_table.
 
 (* soundness of the printer's decision for one pair: whenever it prints b directly behind a, the
    tokenizer standing in front of the printed text  a b ...  cuts a *)
-Theorem glued_pair_sound : forall a b rest, printable_src (a :: b :: rest) -> glued b = true ->
-  exists more, eprint_from false (a :: b :: rest) = sep_before false a ++ e_text a ++ e_text b ++ more /\
+Theorem glued_pair_sound : forall a b rest pb, printable_src (a :: b :: rest) -> glued b = true ->
+  exists more, eprint_from false pb (a :: b :: rest) = sep_before false pb a ++ e_text a ++ e_text b ++ more /\
                first_token punct_table (e_text a ++ e_text b ++ more) = Some (e_kind a, length (e_text a)).
 Proof.
-  intros a b rest [[src Hsrc] _] G. cbn [eprint_from]. rewrite (glued_no_sep b G). cbn [app].
-  exists (eprint_from false rest). split; [reflexivity|].
-  destruct (eprint_from_split rest) as [c [more [Hc E]]]. rewrite E.
+  intros a b rest pb [[src Hsrc] _] G. cbn [eprint_from]. rewrite (glued_no_sep (is_bslash (e_text a)) b G). cbn [app].
+  exists (eprint_from false (is_bslash (e_text b)) rest). split; [reflexivity|].
+  destruct (eprint_from_split rest (is_bslash (e_text b))) as [c [more [Hc E]]]. rewrite E.
   cbn [glue_text] in Hsrc. rewrite G in Hsrc.
   pose proof (proj1 (lexed_in_cut punct_table punct_table_nosep' _ _ (e_text b ++ glue_text rest) src c more Hc Hsrc)) as H.
   rewrite <- app_assoc in H. exact H.
@@ -635,11 +767,17 @@ Proof.
   intros ts Hp. exists (relex ts). split; [apply eprint_roundtrip; exact Hp|apply relex_from_given].
 Qed.
 
-Theorem eprint_faithful : forall ts, printable_src ts -> leading_hash ts = false ->
+(* phases 1-2 of a reader leave the -E text alone: no byte order mark in front, no backslash-new-line,
+   no carriage return - provided no spelling holds one ([clean_tokens]) *)
+Theorem eprint_survives_phases_1_2 : forall ts, printable_src ts -> clean_tokens ts = true ->
+  survives_phases_1_2 (eprint ts) = true.
+Proof. exact (eprint_survives punct_table punct_table_nosep' punct_table_nospace). Qed.
+
+Theorem eprint_faithful : forall ts, printable_src ts -> clean_tokens ts = true -> leading_hash ts = false ->
   faithful (tokenize punct_table) (eprint ts) (given ts).
 Proof.
-  intros ts Hp Hl. exists (relex ts). split; [apply eprint_roundtrip; exact Hp|]. split; [apply relex_from_given|].
-  rewrite relex_no_directive, Hl. reflexivity.
+  intros ts Hp Hc Hl. exists (relex ts). split; [apply eprint_roundtrip; exact Hp|]. split; [apply relex_from_given|].
+  split; [rewrite relex_no_directive, Hl; reflexivity|]. exact (eprint_survives_phases_1_2 ts Hp Hc).
 Qed.
 
 (* the exclusion is exact: EVERY printable list that begins with `#` is printed with that `#` at the
@@ -647,8 +785,41 @@ Qed.
 Theorem leading_hash_always_refuted : forall ts, printable_src ts -> leading_hash ts = true ->
   ~ faithful (tokenize punct_table) (eprint ts) (given ts).
 Proof.
-  intros ts Hp Hl [l [Hlex [_ Hnd]]]. rewrite (eprint_roundtrip ts Hp) in Hlex. injection Hlex as <-.
+  intros ts Hp Hl [l [Hlex [_ [Hnd _]]]]. rewrite (eprint_roundtrip ts Hp) in Hlex. injection Hlex as <-.
   rewrite relex_no_directive, Hl in Hnd. discriminate.
+Qed.
+
+(* clause (3) of the spec against the model of tokenize_file's own phases 1-2 (Model/Phases.v:
+   canonicalize_newline, remove_backslash_newline) and its byte-order-mark test: a text that
+   [survives_phases_1_2] is what these functions return for it *)
+Definition strip_bom (text : list N) : list N := if begins_with_bom text then skipn 3 text else text.
+
+Lemma canon_id : forall p, has_cr p = false -> canon p = p.
+Proof.
+  induction p as [|c r IH]; intros H; [reflexivity|]. unfold has_cr in *. cbn [existsb canon] in *.
+  apply orb_false_iff in H as [H1 H2]. rewrite H1, (IH H2). reflexivity.
+Qed.
+
+Lemma splice_id : forall p, has_splice p = false -> splice 0 p = p.
+Proof.
+  induction p as [|c r IH]; intros H; [reflexivity|]. cbn [has_splice] in H. apply orb_false_iff in H as [H1 H2].
+  specialize (IH H2). cbn [splice]. rewrite IH.
+  assert (E : (if c =? 10 then 10 :: repeat 10 0 ++ r else c :: r) = c :: r).
+  { destruct (c =? 10) eqn:C; [|reflexivity]. apply N.eqb_eq in C. subst c. reflexivity. }
+  rewrite E. destruct r as [|d r']; [reflexivity|]. rewrite H1. reflexivity.
+Qed.
+
+Theorem survives_is_identity text : survives_phases_1_2 text = true -> phases12 (strip_bom text) = text.
+Proof.
+  unfold survives_phases_1_2, strip_bom, phases12. rewrite !andb_true_iff, !negb_true_iff. intros [[H1 H2] H3].
+  rewrite H1, (canon_id _ H3). apply splice_id. exact H2.
+Qed.
+
+(* reading the -E text again the way tokenize_file does: phases 1-2, then the tokenizer *)
+Theorem eprint_reread : forall ts, printable_src ts -> clean_tokens ts = true ->
+  tokenize punct_table (phases12 (strip_bom (eprint ts))) = LexOk (relex ts).
+Proof.
+  intros ts Hp Hc. rewrite (survives_is_identity _ (eprint_survives_phases_1_2 ts Hp Hc)). exact (eprint_roundtrip ts Hp).
 Qed.
 
 (* the witness of the open finding C19-leading-hash:  #define H #  /  H define X 1  /  X   *)
@@ -731,7 +902,34 @@ Lemma ex_mixed_ok :
   faithful (tokenize punct_table) (eprint ex_mixed) (given ex_mixed).
 Proof.
   assert (Hp : printable_src ex_mixed) by (apply printable_iff; [exact punct_table_nosep'|vm_compute; reflexivity]).
-  split; [exact Hp|]. split; [reflexivity|]. split; [vm_compute; reflexivity|]. exact (eprint_faithful _ Hp eq_refl).
+  split; [exact Hp|]. split; [reflexivity|]. split; [vm_compute; reflexivity|]. exact (eprint_faithful _ Hp eq_refl eq_refl).
+Qed.
+
+(* `a \ ` / `x\` (glued) / `b \ ` at the very end: every `\` token is followed by a space *)
+Definition ex_bslash : list etok :=
+  [T LIdent [97] false true false; T LPunct [92] true false false;
+   T LIdent [120] false true false; T LPunct [92] false false true;
+   T LIdent [98] false true false; T LPunct [92] true false false].
+(* an identifier beginning with U+FEFF as the very first token, no has_space *)
+Definition ex_bom : list etok :=
+  [T LIdent [239; 187; 191; 120] false true false; T LPunct [61] true false false; T LNum [49] true false false].
+
+Lemma ex_bslash_ok :
+  printable_src ex_bslash /\ clean_tokens ex_bslash = true /\
+  eprint ex_bslash = [97; 32; 92; 32; 10; 120; 92; 32; 10; 98; 32; 92; 32; 10] /\
+  faithful (tokenize punct_table) (eprint ex_bslash) (given ex_bslash).
+Proof.
+  assert (Hp : printable_src ex_bslash) by (apply printable_iff; [exact punct_table_nosep'|vm_compute; reflexivity]).
+  split; [exact Hp|]. split; [reflexivity|]. split; [vm_compute; reflexivity|]. exact (eprint_faithful _ Hp eq_refl eq_refl).
+Qed.
+
+Lemma ex_bom_ok :
+  printable_src ex_bom /\ clean_tokens ex_bom = true /\
+  eprint ex_bom = [32; 239; 187; 191; 120; 32; 61; 32; 49; 10] /\
+  faithful (tokenize punct_table) (eprint ex_bom) (given ex_bom).
+Proof.
+  assert (Hp : printable_src ex_bom) by (apply printable_iff; [exact punct_table_nosep'|vm_compute; reflexivity]).
+  split; [exact Hp|]. split; [reflexivity|]. split; [vm_compute; reflexivity|]. exact (eprint_faithful _ Hp eq_refl eq_refl).
 Qed.
 
 (* the hypothesis has teeth: token lists that no tokenizer run can have produced are rejected -
